@@ -21,11 +21,15 @@
     [other_requests_keep_the_module_relative_path] (model: Model/Serve.v,
     tied to the real daemon by the serve component and to the destination
     tree by the sync component).
-    What is NOT a theorem (correspondence only, see DESIGN.md): the client's
-    own argument handling in the push / local arrangements (absolute paths are
-    split into directory and last element before the same walk runs);
-    filepath.Clean is modelled ([path_clean]) and compared with the real one
-    by the flist / serve components.
+    The client's own source arguments (push / local copy: an absolute path is
+    split into filepath.Dir and filepath.Base before the same walk runs) are
+    covered by [client_source_without_a_slash_is_named_by_its_last_element]
+    and [client_source_with_a_slash_lands_its_contents_directly] (model
+    client_names, tied to the real SendFileList by component clientnames).
+    filepath.Clean / Dir / Base are modelled ([path_clean], [path_dir],
+    [path_base]) and compared with the real ones through those components;
+    relative source arguments are made absolute by the client before
+    (os.Getwd, not modelled).
     KNOWN FINDING visible in [mapping_examples]: a nested path requested
     *without* trailing slash (module/d/e) keeps its whole module-relative
     path (d/e/...) where rsync names it by its last element (e/...). *)
@@ -130,6 +134,24 @@ Theorem path_requested_without_a_slash_keeps_its_module_relative_name :
     In (render (p0 ++ rel)) (serve_names t (slash :: render_from p0)).
 Proof. exact path_named_module_relative. Qed.
 
+(** The client as sender (push, local copy): the absolute source path
+    "/pre/c" is split into the directory to open and the last element, and is
+    named c, c/... — rsync's naming, for every depth of pre. *)
+Theorem client_source_without_a_slash_is_named_by_its_last_element :
+  forall pre c, Forall (fun x => good_comp x = true) pre -> good_comp c = true ->
+  forall t cs rel node,
+    lookup t pre = Some (TDir cs) -> lookup (TDir cs) (c :: rel) = Some node ->
+    In (render (c :: rel)) (client_names t (slash :: render_from (pre ++ [c]))).
+Proof. exact client_path_is_named_by_its_last_element. Qed.
+
+(** ... and "/pre/c/" lands the contents of c directly under the destination. *)
+Theorem client_source_with_a_slash_lands_its_contents_directly :
+  forall pre c, Forall (fun x => good_comp x = true) pre -> good_comp c = true ->
+  forall t cs rel node,
+    lookup t (pre ++ [c]) = Some (TDir cs) -> lookup (TDir cs) rel = Some node ->
+    In (render rel) (client_names t ((slash :: render_from (pre ++ [c])) ++ [slash])).
+Proof. exact client_directory_with_a_slash_lands_its_contents_directly. Qed.
+
 (** Any other request: the module-relative path. *)
 Theorem other_requests_keep_the_module_relative_path :
   forall p, wire_name [] p = render p.
@@ -155,3 +177,5 @@ Print Assumptions contents_of_a_directory_requested_with_a_slash.
 Print Assumptions other_requests_keep_the_module_relative_path.
 Print Assumptions directory_requested_with_a_slash_lands_its_contents_directly.
 Print Assumptions path_requested_without_a_slash_keeps_its_module_relative_name.
+Print Assumptions client_source_without_a_slash_is_named_by_its_last_element.
+Print Assumptions client_source_with_a_slash_lands_its_contents_directly.
